@@ -1,8 +1,12 @@
-(* PyMini -- abstract syntax and reference semantics of the small, loop-free subset of
-   Python in which the pure helpers of curtsies are written
-   (formatstring.normalize_slice, formatstring.interval_overlap, and the decision cascade of
+(* PyMini -- abstract syntax and reference semantics of the small subset of Python in which
+   the pure helpers of curtsies are written
+   (formatstring.normalize_slice, formatstring.interval_overlap, the decision cascade of
    key decoding: events.get_key, _key_name, decodable, could_be_unfinished_char,
-   could_be_unfinished_utf8).
+   could_be_unfinished_utf8; and -- with `for` loops over lists / str, `break` / `continue`,
+   objects given by their instance attributes, local lists built with append / extend --
+   the slicing algorithms FmtStr.__getitem__, FmtStr.divides, width_aware_slice,
+   FmtStr.width_aware_slice).  There is no `while`: every loop is a `for` over a value that
+   is already a finite list, i.e. structural recursion; the interpreter is total without fuel.
 
    The translator gen/gen_pure.py dumps the Python AST of those functions, node by
    node, into terms of [stmt] (Gen/Pure.v, regenerated from /repo on every run): it makes
@@ -14,8 +18,20 @@
    additionally runs this interpreter against CPython on generated arguments.
 
    Values: int (unbounded), bool, None, slice objects, bytes, str (code points), lists,
-   dicts / sets (module-level tables), enum classes and members, modules, opaque objects
-   with an identity (what `is` compares), generator objects.
+   tuples, dicts / sets (module-level tables, attribute dictionaries), enum classes and
+   members, modules, opaque objects with an identity (what `is` compares), generator objects,
+   and objects given by their class name and instance attributes ([VRec]; no identity: the
+   subset has no attribute assignment, so an object can not change and sharing is invisible).
+
+   LISTS ARE VALUES.  Python lists are mutable; here `x.append(v)` / `x.extend(it)` as a
+   statement on a LOCAL name is the rebinding x := x ++ [v].  That is Python's meaning only if
+   no other reference to the list object exists, and [mut_ok] (checked by [call_in] before
+   anything runs; a function that fails it is an error outcome) makes sure of it syntactically:
+   a name that is the receiver of append / extend is never a parameter or a loop target, is
+   only ever assigned a list display `[...]` (a fresh object), and is only READ where no
+   reference can be retained: x[i], x[a:b] (a copy), "const".join(x), f( *x ) (unpacked into a
+   fresh tuple), a truth test, `return x`.  Mutating anything else -- a parameter, a global,
+   an attribute, a list reached through another expression -- is [Raise OtherError].
    Everything the subset cannot express is an explicit error outcome ([Raise]), never a
    default value; where Python WOULD define a behaviour that is not modelled here the
    outcome is [Raise OtherError] (never a Python exception the real code could raise), so
@@ -47,7 +63,9 @@ Inductive val :=
 | VEnum (cls member : string)
 | VModule (name : string)
 | VObj (tag : string) (id : N)                   (* an object of which only the identity is known *)
-| VGen (items : list (res val)).                 (* generator object: the outcomes of its elements, in order *)
+| VGen (items : list (res val))                  (* generator object: the outcomes of its elements, in order *)
+| VTuple (l : list val)
+| VRec (cls : string) (fields : list (string * val)).   (* an object: class name, instance attributes *)
 
 Inductive binop := BAdd | BSub | BMul | BBitAnd | BBitOr | BMod.
 Inductive cmpop := CLt | CLtE | CGt | CGtE | CEq | CNotEq | CIs | CIsNot | CIn | CNotIn.
@@ -72,7 +90,15 @@ Inductive expr :=
 | ESub (a : expr) (lo hi : option expr)    (* a[lo:hi] on bytes *)
 | EIndex (a i : expr)                      (* a[i] *)
 | EMeth1 (a : expr) (name : string) (arg : expr)   (* a.name(arg) *)
-| EGenExp (elt : expr) (x : string) (it : expr).   (* (elt for x in it) *)
+| EGenExp (elt : expr) (x : string) (it : expr)    (* (elt for x in it) *)
+| EList (es : list expr)                   (* [e1, ..., en] : a fresh list *)
+| ETuple (es : list expr)                  (* (e1, ..., en) *)
+| ECond (test body orelse : expr)          (* body if test else orelse *)
+| ECallStar (f : string) (a : expr)        (* f( *a ) *)
+| ECallN (f : string) (args : list expr).  (* f(a1, ..., an) for n = 0 or n > 3 *)
+
+(* the target of a `for`: a name, or a tuple of names *)
+Inductive target := TName (x : string) | TTuple (xs : list string).
 
 Inductive stmt :=
 | SAssign (x : string) (e : expr)
@@ -83,8 +109,11 @@ Inductive stmt :=
 | SPass                                    (* docstrings and `pass` *)
 | SExpr (e : expr)                         (* expression statement *)
 | SAssert (c : expr)                       (* assert c [, "constant message"] *)
-| STry (body : list stmt) (ex : exn) (handler orelse : list stmt).
+| STry (body : list stmt) (ex : exn) (handler orelse : list stmt)
                                            (* try: body  except ex: handler  else: orelse   (one handler, no finally) *)
+| SFor (tgt : target) (it : expr) (body : list stmt)     (* for tgt in it: body     (no else) *)
+| SBreak
+| SContinue.
 
 (* parameters; [f_defaults] are the default-value expressions of the LAST parameters *)
 Record fundef := mkFun { f_params : list string; f_defaults : list expr; f_body : list stmt }.
@@ -143,7 +172,14 @@ Definition truthy (v : val) : bool :=
   | VList l | VSet l => negb (is_nil l)
   | VDict l => negb (is_nil l)
   | VSlice _ _ _ | VEnumClass _ _ | VEnum _ _ | VModule _ | VObj _ _ | VGen _ => true
+  | VTuple l => negb (is_nil l)
+  | VRec _ _ => true          (* NOT Python's answer when the class defines __len__ / __bool__: see [testable] *)
   end.
+
+(* the truth value of an object of a user class depends on its __bool__ / __len__: every truth
+   test (if, conditional expression, not, and, or, assert, bool(), all / any) refuses such a
+   value instead of guessing *)
+Definition testable (v : val) : bool := match v with VRec _ _ => false | _ => true end.
 
 (* structural equality of values.  It is Python's == on the scalar values (int/bool, None,
    bytes, str, slice, enum members, opaque objects) and on lists of them; it is NOT ==
@@ -163,6 +199,13 @@ Fixpoint val_eqb (a b : val) : bool :=
          | u :: x', w :: y' => val_eqb u w && go x' y'
          | _, _ => false
          end) x y
+  | VTuple x, VTuple y =>
+      (fix go (x y : list val) : bool :=
+         match x, y with
+         | [], [] => true
+         | u :: x', w :: y' => val_eqb u w && go x' y'
+         | _, _ => false
+         end) x y
   | _, _ =>
       match as_int a, as_int b with
       | Some x, Some y => x =? y
@@ -170,10 +213,13 @@ Fixpoint val_eqb (a b : val) : bool :=
       end
   end.
 
-(* values on which == is the structural equality above *)
-Definition comparable (v : val) : bool :=
+(* values on which == is the structural equality above: not dicts, sets, generators, and not
+   objects of user classes (their == is the class's __eq__), at any depth *)
+Fixpoint comparable (v : val) : bool :=
   match v with
-  | VDict _ | VSet _ | VGen _ | VModule _ | VEnumClass _ _ => false
+  | VDict _ | VSet _ | VGen _ | VModule _ | VEnumClass _ _ | VRec _ _ => false
+  | VList l | VTuple l => forallb comparable l
+  | VSlice a b s => comparable a && comparable b && comparable s
   | _ => true
   end.
 
@@ -181,6 +227,7 @@ Definition hashable (v : val) : bool :=
   match v with
   | VList _ | VDict _ | VSet _ => false
   | VGen _ | VModule _ | VEnumClass _ _ => false      (* hashable in Python, by identity: not modelled *)
+  | VTuple _ | VRec _ _ => false                      (* by their elements / by __hash__: not modelled *)
   | _ => true
   end.
 
@@ -276,6 +323,11 @@ Definition eval_bin (op : binop) (a b : val) : res val :=
   | BMod, VStr fmt, _ => format_percent fmt b
   | BAdd, VStr x, VStr y => Ok (VStr (x ++ y))
   | BAdd, VBytes x, VBytes y => Ok (VBytes (x ++ y))
+  | BAdd, VList x, VList y => Ok (VList (x ++ y))                    (* a new list *)
+  | BMul, VStr x, _ =>                                              (* s * n : "" for n <= 0 *)
+      match as_int b with Some n => Ok (VStr (concat (repeat x (Z.to_nat n)))) | None => Raise OtherError end
+  | BMul, _, VStr x =>
+      match as_int a with Some n => Ok (VStr (concat (repeat x (Z.to_nat n)))) | None => Raise OtherError end
   | _, _, _ =>
       match as_int a, as_int b with
       | Some x, Some y =>
@@ -347,13 +399,14 @@ Definition bound_of (v : val) : res (option Z) :=
   | _ => match as_int v with Some z => Ok (Some z) | None => Raise TypeError end
   end.
 
-(* iteration: the outcomes of the successive elements.  Lists and bytes (ints) only; a
-   generator is consumed as it is; str / dict / set iteration is not modelled *)
+(* iteration: the outcomes of the successive elements.  Lists, tuples, bytes (ints), str
+   (one-character strs); a generator is consumed as it is; dict / set iteration is not modelled *)
 Definition iter_items (v : val) : res (list (res val)) :=
   match v with
   | VGen l => Ok l
-  | VList l => Ok (map Ok l)
+  | VList l | VTuple l => Ok (map Ok l)
   | VBytes l => Ok (map (fun b => Ok (VInt (Z.of_N b))) l)
+  | VStr l => Ok (map (fun ch => Ok (VStr [ch])) l)
   | VInt _ | VBool _ | VNone | VSlice _ _ _ => Raise TypeError      (* object is not iterable *)
   | _ => Raise OtherError
   end.
@@ -362,13 +415,13 @@ Definition iter_items (v : val) : res (list (res val)) :=
 Fixpoint all_items (l : list (res val)) : res val :=
   match l with
   | [] => Ok (VBool true)
-  | Ok v :: l' => if truthy v then all_items l' else Ok (VBool false)
+  | Ok v :: l' => if testable v then (if truthy v then all_items l' else Ok (VBool false)) else Raise OtherError
   | Raise e :: _ => Raise e
   end.
 Fixpoint any_items (l : list (res val)) : res val :=
   match l with
   | [] => Ok (VBool false)
-  | Ok v :: l' => if truthy v then Ok (VBool true) else any_items l'
+  | Ok v :: l' => if testable v then (if truthy v then Ok (VBool true) else any_items l') else Raise OtherError
   | Raise e :: _ => Raise e
   end.
 
@@ -378,6 +431,26 @@ Fixpoint sequence (l : list (res val)) : res (list val) :=
   | [] => Ok []
   | Ok v :: l' => match sequence l' with Ok vs => Ok (v :: vs) | Raise e => Raise e end
   | Raise e :: _ => Raise e
+  end.
+
+(* the elements of a sequence VALUE (a generator is lazy: not here) *)
+Definition elements (v : val) : res (list val) :=
+  match v with
+  | VGen _ => Raise OtherError
+  | _ => match iter_items v with Ok items => sequence items | Raise e => Raise e end
+  end.
+
+(* zip(a, b) / zip(a, b, c) over sequence values: tuples up to the shortest.  The result is an
+   iterator object, like a generator: it can be iterated, it has no len() *)
+Fixpoint zip2 (a b : list val) : list val :=
+  match a, b with
+  | x :: a', y :: b' => VTuple [x; y] :: zip2 a' b'
+  | _, _ => []
+  end.
+Fixpoint zip3 (a b d : list val) : list val :=
+  match a, b, d with
+  | x :: a', y :: b', z :: d' => VTuple [x; y; z] :: zip3 a' b' d'
+  | _, _, _ => []
   end.
 
 Definition intercalate (sep : list N) (ps : list (list N)) : list N :=
@@ -415,7 +488,7 @@ Definition call1 (f : string) (a : val) : res val :=
   if String.eqb f "len" then
     match a with
     | VBytes l | VStr l => Ok (VInt (Z.of_nat (List.length l)))
-    | VList l | VSet l => Ok (VInt (Z.of_nat (List.length l)))
+    | VList l | VSet l | VTuple l => Ok (VInt (Z.of_nat (List.length l)))
     | VDict l => Ok (VInt (Z.of_nat (List.length l)))
     | VInt _ | VBool _ | VNone | VSlice _ _ _ | VGen _ => Raise TypeError
     | _ => Raise OtherError
@@ -427,7 +500,7 @@ Definition call1 (f : string) (a : val) : res val :=
     end
   else if String.eqb f "abs" then
     match as_int a with Some z => Ok (VInt (Z.abs z)) | None => if rich a then Raise OtherError else Raise TypeError end
-  else if String.eqb f "bool" then Ok (VBool (truthy a))
+  else if String.eqb f "bool" then (if testable a then Ok (VBool (truthy a)) else Raise OtherError)
   else if String.eqb f "int" then
     match as_int a with Some z => Ok (VInt z) | None => if rich a then Raise OtherError else Raise TypeError end
   else if String.eqb f "all" then
@@ -448,10 +521,24 @@ Definition call2 (f : string) (a b : val) : res val :=
     | _, _ => if rich a || rich b then Raise OtherError else Raise TypeError
     end
   else if String.eqb f "slice" then Ok (VSlice a b VNone)      (* slice(a, b) = slice(a, b, None) *)
+  else if String.eqb f "zip" then
+    match elements a, elements b with
+    | Ok x, Ok y => Ok (VGen (map Ok (zip2 x y)))
+    | Raise e, _ => Raise e
+    | _, Raise e => Raise e
+    end
   else Raise OtherError.
 
 Definition call3 (f : string) (a b c : val) : res val :=
-  if String.eqb f "slice" then Ok (VSlice a b c) else Raise OtherError.
+  if String.eqb f "slice" then Ok (VSlice a b c)
+  else if String.eqb f "zip" then
+    match elements a, elements b, elements c with
+    | Ok x, Ok y, Ok z => Ok (VGen (map Ok (zip3 x y z)))
+    | Raise e, _, _ => Raise e
+    | _, Raise e, _ => Raise e
+    | _, _, Raise e => Raise e
+    end
+  else Raise OtherError.
 
 Definition builtin (f : string) (args : list val) : res val :=
   match args with
@@ -496,12 +583,20 @@ Definition index (a i : val) : res val :=
                   else match nth_error l (Z.to_nat k) with Some b => Ok (VInt (Z.of_N b)) | None => Raise IndexError end
       | None => Raise OtherError
       end
-  | VList l =>
+  | VList l | VTuple l =>
       match as_int i with
       | Some z => let n := Z.of_nat (List.length l) in
                   let k := if z <? 0 then z + n else z in
                   if (k <? 0) || (k >=? n) then Raise IndexError
                   else match nth_error l (Z.to_nat k) with Some v => Ok v | None => Raise IndexError end
+      | None => Raise OtherError
+      end
+  | VStr l =>
+      match as_int i with
+      | Some z => let n := Z.of_nat (List.length l) in
+                  let k := if z <? 0 then z + n else z in
+                  if (k <? 0) || (k >=? n) then Raise IndexError
+                  else match nth_error l (Z.to_nat k) with Some ch => Ok (VStr [ch]) | None => Raise IndexError end
       | None => Raise OtherError
       end
   | VInt _ | VBool _ | VNone => Raise TypeError            (* object is not subscriptable *)
@@ -520,19 +615,58 @@ Definition method1 (c : ctx) (obj : val) (name : string) (arg : val) : res val :
 Definition rbind {A B} (r : res A) (k : A -> res B) : res B :=
   match r with Ok a => k a | Raise e => Raise e end.
 
+(* ---- objects of user classes -------------------------------------------------------
+   What a class defines is in the context, under the qualified name "Class.member" in
+   [c_funs]: a property or a method, given by its semantics on [self :: arguments] (a
+   generated tree run by this interpreter, or an oracle).
+   obj.name : the class's property "Class.name" if there is one (a property is a data
+     descriptor: it wins over the instance), else the instance attribute, else an error
+     (every member listed in a context under a non-dunder name is a property).
+   len(obj) : "Class.__len__", whose result must be an int >= 0. *)
+Definition member_name (cls name : string) : string := (cls ++ "." ++ name)%string.
+
+Definition get_attr_in (c : ctx) (a : val) (name : string) : res val :=
+  match a with
+  | VRec cls fields =>
+      if String.prefix "__" name then Raise OtherError          (* obj.__len__ etc. is a bound method: not modelled *)
+      else
+        match lookup_fun (member_name cls name) (c_funs c) with
+        | Some g => g [a]
+        | None => match lookup name fields with Some v => Ok v | None => Raise OtherError end
+        end
+  | _ => get_attr a name
+  end.
+
+Definition len_of_object (c : ctx) (a : val) : res val :=
+  match a with
+  | VRec cls _ =>
+      match lookup_fun (member_name cls "__len__") (c_funs c) with
+      | Some g => match g [a] with
+                  | Ok (VInt z) => if z <? 0 then Raise OtherError else Ok (VInt z)
+                  | Ok _ => Raise OtherError
+                  | Raise e => Raise e
+                  end
+      | None => Raise OtherError
+      end
+  | _ => Raise OtherError
+  end.
+
 (* f(args) with f a NAME: Python looks it up among the locals, then the module's globals,
-   then the builtins.  Calling a local or a global that is not a function of [c_funs] is
-   outside the subset. *)
+   then the builtins.  Calling a local is outside the subset: [calls_ok], checked by [call_in]
+   before anything runs, refuses a function in which a called name is also the name of a
+   local (a parameter, an assigned name, a loop or comprehension variable) -- so no
+   environment that arises binds [f], and the environment is not consulted here.  Calling a
+   global that is not a function of [c_funs] is outside the subset too. *)
 Definition apply_fun (c : ctx) (r : env) (f : string) (args : list val) : res val :=
-  match lookup f r with
-  | Some _ => Raise OtherError
+  match lookup_fun f (c_funs c) with
+  | Some g => g args
   | None =>
-      match lookup_fun f (c_funs c) with
-      | Some g => g args
+      match lookup f (c_globals c) with
+      | Some _ => Raise OtherError
       | None =>
-          match lookup f (c_globals c) with
-          | Some _ => Raise OtherError
-          | None => builtin f args
+          match args with
+          | [VRec _ _ as a] => if String.eqb f "len" then len_of_object c a else builtin f args
+          | _ => builtin f args
           end
       end
   end.
@@ -558,11 +692,11 @@ Fixpoint eval (c : ctx) (r : env) (e : expr) {struct e} : res val :=
   | EBin op a b => rbind (eval c r a) (fun va => rbind (eval c r b) (fun vb => eval_bin op va vb))
   | ENeg a => rbind (eval c r a) (fun va => match as_int va with Some z => Ok (VInt (- z))
                                                            | None => if rich va then Raise OtherError else Raise TypeError end)
-  | ENot a => rbind (eval c r a) (fun va => Ok (VBool (negb (truthy va))))
+  | ENot a => rbind (eval c r a) (fun va => if testable va then Ok (VBool (negb (truthy va))) else Raise OtherError)
   | ECmp op a b => rbind (eval c r a) (fun va => rbind (eval c r b) (fun vb => eval_cmp op va vb))
-  | EAnd a b => rbind (eval c r a) (fun va => if truthy va then eval c r b else Ok va)
-  | EOr a b => rbind (eval c r a) (fun va => if truthy va then Ok va else eval c r b)
-  | EAttr a name => rbind (eval c r a) (fun va => get_attr va name)
+  | EAnd a b => rbind (eval c r a) (fun va => if testable va then (if truthy va then eval c r b else Ok va) else Raise OtherError)
+  | EOr a b => rbind (eval c r a) (fun va => if testable va then (if truthy va then Ok va else eval c r b) else Raise OtherError)
+  | EAttr a name => rbind (eval c r a) (fun va => get_attr_in c va name)
   | ECall1 f a => rbind (eval c r a) (fun va => apply_fun c r f [va])
   | ECall2 f a b =>
       if String.eqb f "isinstance" then
@@ -581,6 +715,9 @@ Fixpoint eval (c : ctx) (r : env) (e : expr) {struct e} : res val :=
       rbind (match hi with None => Ok None | Some x => rbind (eval c r x) bound_of end) (fun h =>
       match va with
       | VBytes bs => Ok (VBytes (slice_list bs l h))
+      | VStr s => Ok (VStr (slice_list s l h))
+      | VList vs => Ok (VList (slice_list vs l h))                 (* a new list *)
+      | VTuple vs => Ok (VTuple (slice_list vs l h))
       | VInt _ | VBool _ | VNone => Raise TypeError
       | _ => Raise OtherError
       end)))
@@ -597,13 +734,62 @@ Fixpoint eval (c : ctx) (r : env) (e : expr) {struct e} : res val :=
                                  | Ok v => eval c (bind_var x v r) elt
                                  | Raise ex => Raise ex
                                  end) items))))
+  | EList es =>
+      rbind ((fix evals (l : list expr) : res (list val) :=
+                match l with
+                | [] => Ok []
+                | e' :: l' => rbind (eval c r e') (fun v => rbind (evals l') (fun vs => Ok (v :: vs)))
+                end) es) (fun vs => Ok (VList vs))
+  | ETuple es =>
+      rbind ((fix evals (l : list expr) : res (list val) :=
+                match l with
+                | [] => Ok []
+                | e' :: l' => rbind (eval c r e') (fun v => rbind (evals l') (fun vs => Ok (v :: vs)))
+                end) es) (fun vs => Ok (VTuple vs))
+  | ECond test body orelse =>
+      rbind (eval c r test) (fun vt =>
+        if testable vt then (if truthy vt then eval c r body else eval c r orelse) else Raise OtherError)
+  | ECallStar f a =>
+      (* f( *a ): the elements of a, unpacked into a fresh argument tuple *)
+      rbind (eval c r a) (fun va => rbind (elements va) (fun vs => apply_fun c r f vs))
+  | ECallN f es =>
+      rbind ((fix evals (l : list expr) : res (list val) :=
+                match l with
+                | [] => Ok []
+                | e' :: l' => rbind (eval c r e') (fun v => rbind (evals l') (fun vs => Ok (v :: vs)))
+                end) es) (fun vs => apply_fun c r f vs)
   end.
 
 (* ---- statements ------------------------------------------------------------------ *)
 Inductive outcome :=
 | Next (r : env)            (* fell through *)
 | Returned (v : val)
-| Raised (e : exn).
+| Raised (e : exn)
+| Broke (r : env)           (* `break`: ends the innermost `for` *)
+| Continued (r : env).      (* `continue`: ends this round of the innermost `for` *)
+
+(* binding the target of a `for` to an element *)
+Fixpoint bind_all (xs : list string) (vs : list val) (r : env) : option env :=
+  match xs, vs with
+  | [], [] => Some r
+  | x :: xs', v :: vs' => bind_all xs' vs' (bind_var x v r)
+  | _, _ => None
+  end.
+Definition bind_target (t : target) (v : val) (r : env) : option env :=
+  match t with
+  | TName x => Some (bind_var x v r)
+  | TTuple xs => match v with VTuple vs => bind_all xs vs r | _ => None end    (* other unpackings: not modelled *)
+  end.
+
+(* x.append(e) / x.extend(e) as a statement, x a NAME *)
+Definition mutation_of (e : expr) : option (string * bool * expr) :=
+  match e with
+  | EMeth1 (EVar x) name arg =>
+      if String.eqb name "append" then Some (x, false, arg)
+      else if String.eqb name "extend" then Some (x, true, arg)
+      else None
+  | _ => None
+  end.
 
 (* `except h` catches e: the class itself, and UnicodeDecodeError <: ValueError.  An unknown
    exception (OtherError) is never caught: it stays an error outcome. *)
@@ -625,6 +811,7 @@ Fixpoint exec (c : ctx) (s : stmt) (r : env) {struct s} : outcome :=
   | SAugAssign x op e =>
       match lookup x r with
       | None => Raised OtherError
+      | Some (VList _) => Raised OtherError        (* += on a list changes the object in place: not modelled *)
       | Some old =>
           match eval c r e with
           | Ok v => match eval_bin op old v with Ok w => Next (bind_var x w r) | Raise ex => Raised ex end
@@ -634,17 +821,37 @@ Fixpoint exec (c : ctx) (s : stmt) (r : env) {struct s} : outcome :=
   | SIf cnd th el =>
       match eval c r cnd with
       | Raise ex => Raised ex
-      | Ok v => block (if truthy v then th else el) r
+      | Ok v => if testable v then block (if truthy v then th else el) r else Raised OtherError
       end
   | SReturn e => match eval c r e with Ok v => Returned v | Raise ex => Raised ex end
   | SRaise ex => Raised ex
   | SPass => Next r
-  | SExpr e => match eval c r e with Ok _ => Next r | Raise ex => Raised ex end
+  | SExpr e =>
+      match mutation_of e with
+      | Some (x, is_extend, arg) =>
+          (* the list bound to the LOCAL name x grows (see LISTS ARE VALUES above and [mut_ok]);
+             append / extend on anything else is outside the subset *)
+          match lookup x r with
+          | Some (VList l) =>
+              match eval c r arg with
+              | Raise ex => Raised ex
+              | Ok v =>
+                  if is_extend then
+                    match elements v with
+                    | Ok vs => Next (bind_var x (VList (l ++ vs)) r)
+                    | Raise ex => Raised ex
+                    end
+                  else Next (bind_var x (VList (l ++ [v])) r)
+              end
+          | _ => Raised OtherError
+          end
+      | None => match eval c r e with Ok _ => Next r | Raise ex => Raised ex end
+      end
   | SAssert cnd =>
       match eval c r cnd with
       | Raise ex => Raised ex
-      | Ok v => if truthy v then Next r else Raised AssertionError        (* python without -O *)
-      end
+      | Ok v => if testable v then (if truthy v then Next r else Raised AssertionError) else Raised OtherError
+      end                                                                  (* python without -O *)
   | STry body ex handler orelse =>
       (* a body of ONE statement: nothing can have been assigned when it raises *)
       match body with
@@ -653,9 +860,40 @@ Fixpoint exec (c : ctx) (s : stmt) (r : env) {struct s} : outcome :=
           | Next r' => block orelse r'
           | Returned v => Returned v
           | Raised e => if catches ex e then block handler r else Raised e
+          | Broke r' => Broke r'
+          | Continued r' => Continued r'
           end
       | _ => Raised OtherError
       end
+  | SFor t it body =>
+      (* the iterable is evaluated once, to a finite list of element outcomes: the loop is
+         structural recursion over it.  (No statement of the subset can change the value
+         being iterated: see [mut_ok].) *)
+      match eval c r it with
+      | Raise ex => Raised ex
+      | Ok vi =>
+          match iter_items vi with
+          | Raise ex => Raised ex
+          | Ok items =>
+              (fix loop (items : list (res val)) (r : env) {struct items} : outcome :=
+                 match items with
+                 | [] => Next r
+                 | Raise ex :: _ => Raised ex
+                 | Ok v :: items' =>
+                     match bind_target t v r with
+                     | None => Raised OtherError
+                     | Some r1 =>
+                         match block body r1 with
+                         | Next r2 | Continued r2 => loop items' r2
+                         | Broke r2 => Next r2
+                         | o => o
+                         end
+                     end
+                 end) items r
+          end
+      end
+  | SBreak => Broke r
+  | SContinue => Continued r
   end.
 
 Fixpoint exec_block (c : ctx) (l : list stmt) (r : env) : outcome :=
@@ -673,9 +911,125 @@ Fixpoint assigned (s : stmt) : list string :=
   | SAssign x _ | SAugAssign x _ _ => [x]
   | SIf _ th el => block th ++ block el
   | STry b _ h o => block b ++ block h ++ block o
+  | SFor t _ body => match t with TName x => [x] | TTuple xs => xs end ++ block body
   | _ => []
   end.
 Definition assigned_block (l : list stmt) : list string := flat_map assigned l.
+
+(* ---- the discipline that makes "lists are values" sound: see the head of the file --------
+   [M] = the names that are receivers of an append / extend statement somewhere in the body. *)
+Fixpoint mutated (s : stmt) : list string :=
+  let block := fix block (l : list stmt) : list string :=
+                 match l with [] => [] | s' :: l' => mutated s' ++ block l' end in
+  match s with
+  | SExpr e => match mutation_of e with Some (x, _, _) => [x] | None => [] end
+  | SIf _ th el => block th ++ block el
+  | STry b _ h o => block b ++ block h ++ block o
+  | SFor _ _ body => block body
+  | _ => []
+  end.
+
+(* every occurrence of a name of M in the expression is a read that retains no reference *)
+Fixpoint expr_ok (M : list string) (e : expr) {struct e} : bool :=
+  let opt := fun (o : option expr) => match o with None => true | Some x => expr_ok M x end in
+  let all := fix all (l : list expr) : bool := match l with [] => true | e' :: l' => expr_ok M e' && all l' end in
+  let test := fun (t : expr) => match t with EVar _ => true | _ => expr_ok M t end in
+  match e with
+  | EVar x => negb (mem_string x M)
+  | EInt _ | EBoolC _ | ENoneC | EStr _ | EBytes _ => true
+  | EBin _ a b | ECmp _ a b | EAnd a b | EOr a b => expr_ok M a && expr_ok M b
+  | ENeg a => expr_ok M a
+  | ENot a => test a
+  | EAttr a _ => expr_ok M a
+  | ECall1 _ a => expr_ok M a
+  | ECall2 _ a b => expr_ok M a && expr_ok M b
+  | ECall3 _ a b d => expr_ok M a && expr_ok M b && expr_ok M d
+  | ESub (EVar _) lo hi => opt lo && opt hi
+  | ESub a lo hi => expr_ok M a && opt lo && opt hi
+  | EIndex (EVar _) i => expr_ok M i
+  | EIndex a i => expr_ok M a && expr_ok M i
+  | EMeth1 (EStr _) name (EVar x) => String.eqb name "join" || negb (mem_string x M)
+  | EMeth1 a _ arg => expr_ok M a && expr_ok M arg
+  | EGenExp elt x it => negb (mem_string x M) && expr_ok M elt && expr_ok M it
+  | EList es | ETuple es | ECallN _ es => all es
+  | ECond t a b => test t && expr_ok M a && expr_ok M b
+  | ECallStar _ (EVar _) => true
+  | ECallStar _ a => expr_ok M a
+  end.
+
+Fixpoint stmt_ok (M : list string) (s : stmt) {struct s} : bool :=
+  let block := fix block (l : list stmt) : bool :=
+                 match l with [] => true | s' :: l' => stmt_ok M s' && block l' end in
+  let test := fun (t : expr) => match t with EVar _ => true | _ => expr_ok M t end in
+  match s with
+  | SAssign x e => if mem_string x M then match e with EList es => expr_ok M e | _ => false end else expr_ok M e
+  | SAugAssign x _ e => negb (mem_string x M) && expr_ok M e
+  | SIf c th el => test c && block th && block el
+  | SReturn (EVar _) => true
+  | SReturn e => expr_ok M e
+  | SRaise _ | SPass | SBreak | SContinue => true
+  | SExpr e => match mutation_of e with Some (_, _, arg) => expr_ok M arg | None => expr_ok M e end
+  | SAssert c => test c
+  | STry b _ h o => block b && block h && block o
+  | SFor t it body =>
+      negb (existsb (fun x => mem_string x M) (match t with TName x => [x] | TTuple xs => xs end))
+      && expr_ok M it && block body
+  end.
+
+(* ---- no local has the name of something the function calls ------------------------------- *)
+Fixpoint called_e (e : expr) {struct e} : list string :=
+  let opt := fun (o : option expr) => match o with None => [] | Some x => called_e x end in
+  let all := fix all (l : list expr) : list string := match l with [] => [] | e' :: l' => called_e e' ++ all l' end in
+  match e with
+  | EVar _ | EInt _ | EBoolC _ | ENoneC | EStr _ | EBytes _ => []
+  | EBin _ a b | ECmp _ a b | EAnd a b | EOr a b => called_e a ++ called_e b
+  | ENeg a | ENot a | EAttr a _ => called_e a
+  | ECall1 f a => f :: called_e a
+  | ECall2 f a b => f :: called_e a ++ called_e b
+  | ECall3 f a b d => f :: called_e a ++ called_e b ++ called_e d
+  | ESub a lo hi => called_e a ++ opt lo ++ opt hi
+  | EIndex a i => called_e a ++ called_e i
+  | EMeth1 a _ arg => called_e a ++ called_e arg
+  | EGenExp elt _ it => called_e elt ++ called_e it
+  | EList es | ETuple es => all es
+  | ECond t a b => called_e t ++ called_e a ++ called_e b
+  | ECallStar f a => f :: called_e a
+  | ECallN f es => f :: all es
+  end.
+Fixpoint genvars_e (e : expr) {struct e} : list string :=
+  let opt := fun (o : option expr) => match o with None => [] | Some x => genvars_e x end in
+  let all := fix all (l : list expr) : list string := match l with [] => [] | e' :: l' => genvars_e e' ++ all l' end in
+  match e with
+  | EVar _ | EInt _ | EBoolC _ | ENoneC | EStr _ | EBytes _ => []
+  | EBin _ a b | ECmp _ a b | EAnd a b | EOr a b => genvars_e a ++ genvars_e b
+  | ENeg a | ENot a | EAttr a _ | ECall1 _ a | ECallStar _ a => genvars_e a
+  | ECall2 _ a b | EIndex a b | EMeth1 a _ b => genvars_e a ++ genvars_e b
+  | ECall3 _ a b d | ECond a b d => genvars_e a ++ genvars_e b ++ genvars_e d
+  | ESub a lo hi => genvars_e a ++ opt lo ++ opt hi
+  | EGenExp elt x it => x :: genvars_e elt ++ genvars_e it
+  | EList es | ETuple es | ECallN _ es => all es
+  end.
+(* the expressions of a statement, all blocks included *)
+Fixpoint exprs_of (s : stmt) {struct s} : list expr :=
+  let block := fix block (l : list stmt) : list expr :=
+                 match l with [] => [] | s' :: l' => exprs_of s' ++ block l' end in
+  match s with
+  | SAssign _ e | SAugAssign _ _ e | SReturn e | SExpr e | SAssert e => [e]
+  | SIf c th el => c :: block th ++ block el
+  | STry b _ h o => block b ++ block h ++ block o
+  | SFor _ it body => it :: block body
+  | SRaise _ | SPass | SBreak | SContinue => []
+  end.
+Definition calls_ok (f : fundef) : bool :=
+  let es := (flat_map exprs_of (f_body f) ++ f_defaults f)%list in
+  let locals := (f_params f ++ assigned_block (f_body f) ++ flat_map genvars_e es)%list in
+  negb (existsb (fun g => mem_string g locals) (flat_map called_e es)).
+
+Definition mut_ok (f : fundef) : bool :=
+  let M := flat_map mutated (f_body f) in
+  negb (existsb (fun x => mem_string x M) (f_params f))
+  && forallb (stmt_ok M) (f_body f)
+  && forallb (expr_ok M) (f_defaults f).
 
 (* call a function: positional arguments, missing ones from the defaults of the last
    parameters (evaluated in the module's scope); falling off the end returns None *)
@@ -685,7 +1039,8 @@ Definition call_in (c : ctx) (f : fundef) (args : list val) : res val :=
   let np := count (f_params f) in
   let na := count args in
   let nd := count (f_defaults f) in
-  if ((na <=? np) && (np - nd <=? na))%nat then
+  if negb (mut_ok f && calls_ok f) then Raise OtherError
+  else if ((na <=? np) && (np - nd <=? na))%nat then
     let locals := f_params f ++ assigned_block (f_body f) in
     let c' := mkCtx (filter (fun kv => negb (mem_string (fst kv) locals)) (c_globals c))
                     (filter (fun kv => negb (mem_string (fst kv) locals)) (c_funs c))
@@ -704,12 +1059,50 @@ Definition call_in (c : ctx) (f : fundef) (args : list val) : res val :=
         | Next _ => Ok VNone
         | Returned v => Ok v
         | Raised e => Raise e
+        | Broke _ | Continued _ => Raise OtherError        (* not in a loop: a SyntaxError in Python *)
         end
     end
   else Raise TypeError.
 
 (* functions that use nothing of their module *)
 Definition call (f : fundef) (args : list val) : res val := call_in empty_ctx f args.
+
+(* sameness of two values as data, for COMPARING OUTCOMES in the correspondence checks (not
+   Python's ==): as [val_eqb], and structural on tuples, objects and dicts (items in order) *)
+Fixpoint val_same (a b : val) : bool :=
+  let all := fix all (x y : list val) : bool :=
+               match x, y with
+               | [], [] => true
+               | u :: x', w :: y' => val_same u w && all x' y'
+               | _, _ => false
+               end in
+  match a, b with
+  | VList x, VList y => all x y
+  | VTuple x, VTuple y => all x y
+  | VSlice a1 a2 a3, VSlice b1 b2 b3 => val_same a1 b1 && val_same a2 b2 && val_same a3 b3
+  | VDict x, VDict y =>
+      (fix items (x y : list (val * val)) : bool :=
+         match x, y with
+         | [], [] => true
+         | (k, u) :: x', (k', w) :: y' => val_same k k' && val_same u w && items x' y'
+         | _, _ => false
+         end) x y
+  | VRec c x, VRec c' y =>
+      String.eqb c c' &&
+      (fix flds (x y : list (string * val)) : bool :=
+         match x, y with
+         | [], [] => true
+         | (k, u) :: x', (k', w) :: y' => String.eqb k k' && val_same u w && flds x' y'
+         | _, _ => false
+         end) x y
+  | _, _ => val_eqb a b
+  end.
+Definition res_val_same (a b : res val) : bool :=
+  match a, b with
+  | Ok x, Ok y => val_same x y
+  | Raise e, Raise e' => exn_eqb e e'
+  | _, _ => false
+  end.
 
 Definition res_val_eqb (a b : res val) : bool :=
   match a, b with
